@@ -32,7 +32,12 @@ func init() {
 		},
 		"(*sync.WaitGroup).Wait": wgWait,
 		"(*sync.Pool).Get":       func(e *Exec, _ *frame, _ *ssa.Function, a []Value) Value { return poolGet(e, a[0].(*Value)) },
-		"(*sync.Pool).Put":       func(e *Exec, _ *frame, _ *ssa.Function, a []Value) Value { return nil },
+		"(*sync.Pool).Put": func(e *Exec, _ *frame, _ *ssa.Function, a []Value) Value {
+			k := poolKey{a[0].(*Value)}
+			st, _ := e.ext[k].([]Value)
+			e.ext[k] = append(st, a[1])
+			return nil
+		},
 
 		// --- runtime / misc -----------------------------------------------
 		"runtime.Gosched":       func(e *Exec, _ *frame, _ *ssa.Function, a []Value) Value { e.yield(); return nil },
@@ -387,8 +392,17 @@ func wgWait(e *Exec, _ *frame, _ *ssa.Function, a []Value) Value {
 	return nil
 }
 
+type poolKey struct{ p *Value }
+
 func poolGet(e *Exec, p *Value) Value {
-	// sync.Pool{New: f}: always call New (an empty pool is a legal behaviour)
+	// sync.Pool model: the most recently Put object is handed out again (what the
+	// runtime does on one P; the behaviour that exposes stale-state bugs); empty: New
+	k := poolKey{p}
+	if items, _ := e.ext[k].([]Value); len(items) > 0 {
+		v := items[len(items)-1]
+		e.ext[k] = items[:len(items)-1]
+		return v
+	}
 	st := (*p).(Struct)
 	newf := st[len(st)-1]
 	if f, ok := newf.(*ssa.Function); ok && f == nil {
